@@ -15,9 +15,48 @@ import (
 	"path/filepath"
 	"strings"
 
+	"grol.io/grol/eval"
+	"grol.io/grol/object"
+
 	"verifharness/common"
 	. "verifharness/common"
 )
+
+// quoteCase (round 12): the text of a QUOTED tree. quote(e) copies the tree (ast.Modify) and prints the copy; the text must be
+// the same in every run (12 fresh interpreters), and formatting that text must leave it unchanged (it is formatter output).
+// A copy that walks a map literal through its Go map instead of its key order prints the pairs in a different order each time.
+func quoteCase(c *Ctx, src []byte) {
+	c.Eval()
+	cs := "QUOTE " + Hx(src)
+	defer func() {
+		if r := recover(); r != nil {
+			c.Fail("quote-print-panic", cs, fmt.Sprint(r))
+		}
+	}()
+	first := ""
+	for i := 0; i < 12; i++ {
+		st := eval.NewState()
+		res, err := eval.EvalString(st, "quote("+string(src)+")", false)
+		if err != nil || res == nil || res.Type() != object.QUOTE {
+			c.Count("quote=not-a-quote")
+			return
+		}
+		txt := res.Inspect()
+		if i == 0 {
+			first = txt
+		} else if txt != first {
+			c.Fail("quote-text-nondeterministic", cs, fmt.Sprintf("src=%q run 1: %q run %d: %q", src, first, i+1, txt))
+			return
+		}
+	}
+	c.Count("quote=printed")
+	body := strings.TrimSuffix(strings.TrimPrefix(first, "quote("), ")")
+	if e1, ok := EntryFormat([]byte(body), true); ok {
+		if e2, _ := EntryFormat(e1, true); !bytes.Equal(e1, e2) {
+			c.Fail("quote-text-not-a-fixpoint", cs, fmt.Sprintf("src=%q quoted=%q formatted=%q again=%q", src, body, e1, e2))
+		}
+	}
+}
 
 func main() {
 	if len(os.Args) > 1 && os.Args[1] == "-child" {
@@ -162,6 +201,9 @@ func run(c *Ctx) {
 		if len(f) == 2 && f[0] == "FMT2" {
 			one(c, Unhx(f[1]), true, &s)
 		}
+		if len(f) == 2 && f[0] == "QUOTE" {
+			quoteCase(c, Unhx(f[1]))
+		}
 		if len(f) == 2 && f[0] == "SHEBANG" {
 			src := Unhx(f[1])
 			for _, compact := range []bool{false, true} {
@@ -183,6 +225,20 @@ func run(c *Ctx) {
 		"x = 1 // first value \r\ny = 2 //\t\r\n", "// c \r\n// d\t \r\nx", "m = {(a && b):\"both\", (a || b):\"any\"}", "m = {(1:3):\"low\", 4:\"high\"}", "{(a == b):(c : d)}",
 		"func f() {\n\tif x {\n\t\t/* a\n\n\t\t   b */\n\t\ty\n\t}\n}", "if a {\n/* one\ntwo\n\nthree */\nb}", "for i = 2 { if i { /*\n * s\n *\n */ i } }"} {
 		one(c, []byte(src), true, &s)
+	}
+	// round 12: string literals whose runes print as \u escapes (non-printable U+0080..U+00FF and above: NEL, NBSP, soft hyphen,
+	// C1 controls, U+2028, a zero-width space, BOM), written raw and as \u / \U / \x escapes, alone and next to ASCII: what the
+	// first formatting writes as an escape must read back as the same string. The model's quoting covers bytes only: direct oracle.
+	for _, u := range []string{"\"\\u00ad\"", "\"a\\u0085b\"", "\"\\u00a0\"", "\"\\u0080\\u009f\"", "\"\\u00ff\\u0100\"", "\"\\u2028\"", "\"\\ufeff\"", "\"\\U0001f600\"",
+		"\"a\u0085b\"", "\"\u00ad\"", "\"\u00a0x\"", "\"\u200b\"", "\"\u2028\"", "\"\ufeffz\"", "`raw\u00ad`", "\"\\xc2\\xad\"", "\"\\u00e9\\u00ad\\u00e9\"", "x = [\"\\u009b\", \"\u0091\"]"} {
+		one(c, []byte(u), false, &s)
+		one(c, []byte("s = "+u+" // c\nt = "+u), false, &s)
+	}
+	// round 12: quoted trees (map literals of 2..12 pairs with keys of several types, nested, inside arrays, calls and lambdas)
+	for _, q := range []string{`{3:1, 1:2}`, `{"b":1, "a":2, "c":3}`, `{9:0, 8:0, 7:0, 6:0, 5:0, 4:0, 3:0, 2:0, 1:0}`, `{"k":{2:1, 1:2, 0:3}, "j":[{5:5, 4:4, 3:3}]}`,
+		`f({"z":1, "y":2, "x":3, "w":4})`, `x => {x:1, "s":2, 1.5:3, true:4, [1]:5}`, `[{b:1, a:2}, {a:1, b:2}]`, `m = {12:1, 11:2, 10:3, 9:4, 8:5, 7:6, 6:7, 5:8, 4:9, 3:10, 2:11, 1:12}`,
+		`if c {{2:2, 1:1}} else {{1:1, 2:2}}`, `{}`, `{1:1}`, `a + b * c`, `[3, 2, 1]`, `func(a, b) {{b:a, a:b}}`} {
+		quoteCase(c, []byte(q))
 	}
 	// adjacent literals and operators against sign-leading operands (common.DelicatePrograms, shared with C02): a second
 	// formatting pass must not glue what the first one kept apart
